@@ -18,10 +18,15 @@ INVARIANT C10_BothClosedAfterServe
 INVARIANT C05_Contiguous
 INVARIANT C05_NoStrayWrites
 PROPERTY C05_WritesUnderLock
+PROPERTY C10_DeadlineKept
 CHECK_DEADLOCK FALSE
 '''
 
-TX_KINDS = ["send", "sendel", "encode", "encodeel", "tw", "sendiqres", "sendmsgerr", "sendpreserr", "encodemsgerr"]
+TX_KINDS = ["send", "sendel", "encode", "encodeel", "tw", "sendiqres", "sendmsgerr", "sendpreserr", "encodemsgerr",
+            "encodeiqres", "encodepreserr"]
+# entry points that marshal a plain Go value BEFORE they take the output lock: two of them queued behind each
+# other must still each transmit their own content (a shared scratch buffer would mix them)
+MARSHAL_KINDS = ["encodemsgerr", "encodeiqres", "encodepreserr"]
 
 
 def scenarios(tier, focus):
@@ -46,6 +51,12 @@ def scenarios(tier, focus):
         for a in (["close"], ["tx", "close"]):
             out.append({"procs": [{"name": "a", "calls": a}], "serve": True, "script": ["deadline"], "big": False})
         out.append({"procs": [{"name": "a", "calls": ["close"]}], "serve": True, "script": ["stanza_reply", "deadline"], "big": False})
+        # the deadline is set first and passes later; in between a transmit call whose context is done
+        # (its write may be interrupted: the encoder is broken afterwards) must not disarm it
+        for a in (["sendc", "close"], ["encodec", "close"], ["close", "sendc"], ["sendc"], ["tx", "sendc", "close"]):
+            out.append({"procs": [{"name": "a", "calls": a}], "serve": True, "script": ["dlset", "dlfire"], "big": False})
+        out.append({"procs": [{"name": "a", "calls": ["sendc", "tx", "close"]}, {"name": "b", "calls": ["tx"]}], "serve": False, "script": [], "big": False})
+        out.append({"procs": [{"name": "a", "calls": ["encodec"]}, {"name": "b", "calls": ["close"]}], "serve": True, "script": ["close"], "big": True})
         scripts = [[], ["close"], ["stanza_reply"], ["stanza_herr"], ["streamerr"], ["stanza_reply", "close"], ["stanza", "stanza_herr"]]
         for a in [["close"], ["tx"], ["close", "tx"], ["tx", "close"]]:
             for sc in scripts:
@@ -62,6 +73,9 @@ def scenarios(tier, focus):
                 out.append({"procs": [{"name": "a", "calls": a}, {"name": "b", "calls": b}], "serve": False, "script": [], "big": big})
             for sc in (["stanza_reply"], ["stanza_reply", "stanza_reply"], ["stanza_reply", "close"]):
                 out.append({"procs": [{"name": "a", "calls": ["tx"]}], "serve": True, "script": sc, "big": big})
+        for ka, kb in itertools.combinations_with_replacement(MARSHAL_KINDS, 2):
+            out.append({"procs": [{"name": "a", "calls": [ka]}, {"name": "b", "calls": [kb]}], "serve": False, "script": [], "big": ka == kb})
+        out.append({"procs": [{"name": "a", "calls": ["tw"]}, {"name": "b", "calls": ["encodeiqres"]}, {"name": "c", "calls": ["encodemsgerr"]}], "serve": False, "script": [], "big": False})
         if tier == "thorough":
             for a, b, c in itertools.combinations_with_replacement([["tx"], ["tx", "tx"]], 3):
                 out.append({"procs": [{"name": "a", "calls": a}, {"name": "b", "calls": b}, {"name": "c", "calls": c}], "serve": False, "script": [], "big": True})
